@@ -267,19 +267,43 @@ def read_ndjson(path):
     return out
 
 
-def judge(ctx, module, cfg, obs_path, params=None, workers=None, timeout=3600, tag=None, heap=None):
+def judge(ctx, module, cfg, obs_path, params=None, workers=None, timeout=3600, tag=None, heap=None, chunk=60000):
     """Role 3: TLC reads the observations and prints one verdict per record.
 
     The judge module reads Params!ObsFile. Verdict records are {"id","ok","sig",...}.
-    Every observation must receive exactly one verdict, otherwise the run is inconclusive.
+    Large observation files are judged in chunks of `chunk` records (TLC's JSON reader is
+    single-threaded and memory-hungry); every observation must receive exactly one verdict.
     """
-    p = dict(params or {})
-    p["ObsFile"] = obs_path
-    write_params(ctx, p)
-    r = run_tlc(ctx, module, cfg, workers=workers, timeout=timeout, tag=tag or ("judge-" + module), heap=heap)
-    if r.violated:
-        raise Inconclusive("judge %s reported a TLC-level violation %s:\n%s" % (module, r.violated, r.stdout[-2000:]))
-    return r.records
+    paths = [obs_path]
+    n = sum(1 for _ in open(obs_path))
+    if n > chunk:
+        paths = []
+        with open(obs_path) as f:
+            k, out = 0, None
+            for j, line in enumerate(f):
+                if j % chunk == 0:
+                    if out:
+                        out.close()
+                    k += 1
+                    p = "%s.part%d" % (obs_path, k)
+                    paths.append(p)
+                    out = open(p, "w")
+                out.write(line)
+            if out:
+                out.close()
+    records = []
+    for k, pth in enumerate(paths):
+        p = dict(params or {})
+        p["ObsFile"] = pth
+        write_params(ctx, p)
+        t = (tag or ("judge-" + module)) + ("" if len(paths) == 1 else "-part%d" % (k + 1))
+        r = run_tlc(ctx, module, cfg, workers=workers, timeout=timeout, tag=t, heap=heap)
+        if r.violated:
+            raise Inconclusive("judge %s reported a TLC-level violation %s:\n%s" % (module, r.violated, r.stdout[-2000:]))
+        records.extend(r.records)
+        if len(paths) > 1:
+            os.remove(pth)
+    return records
 
 
 # ----------------------------------------------------------------------------- known findings
